@@ -8,6 +8,9 @@ mod k_vars;
 mod k_lex;
 mod k_damage;
 mod k_crash;
+mod k_val;
+mod k_hist;
+mod k_histf;
 mod shrink;
 mod sym;
 
@@ -30,6 +33,9 @@ fn run_line(line: &str) -> String {
         "damage" => k_damage::run(&f[1..]),
         "crash" => k_crash::run(&f[1..]),
         "stack" => k_crash::run_stack(&f[1..]),
+        "valop" => k_val::run(&f[1..]),
+        "hist" => k_hist::run(&f[1..]),
+        "histf" => k_histf::run(&f[1..]),
         "order" => k_order::run_order(&f[1..]),
         "track" => k_order::run_track(&f[1..]),
         _ => "BADKIND".into(),
@@ -64,6 +70,10 @@ fn main() {
                     "crash" => k_crash::gen(&mut rng, tier, i, &mut stats),
                     "crashx" => k_crash::gen_exhaustive(i + offset),
                     "stack" => k_crash::gen_stack(i),
+                    "valop" => k_val::gen(&mut rng, tier, i, &mut stats),
+                    "hist" => k_hist::gen(&mut rng, tier, i, &mut stats, profile),
+                    "histf" => k_histf::gen(&mut rng, tier, i, &mut stats, profile),
+                    "valopx" => k_val::gen_exhaustive(i + offset),
                     "order" => k_order::gen(&mut rng, tier, i, &mut stats),
                     "orderx" => k_order::gen_exhaustive(i),
                     "track" => k_order::gen_track(&mut rng, tier, i, &mut stats),
@@ -71,6 +81,17 @@ fn main() {
                 };
                 // the request is on disk before the library is called: if the process dies
                 // (stack overflow, abort) the last request line is the culprit
+                let mut line = line;
+                if kind == "hist" {
+                    // histories whose results explode in size are replaced (the model driver is
+                    // polynomial in the expression size); the impl is run on them all the same
+                    let mut tries = 0;
+                    while tries < 50 && run_line(&line).len() > 6000 {
+                        line = k_hist::gen(&mut rng, tier, i, &mut stats, profile);
+                        tries += 1;
+                        *stats.entry("oversize_replaced".into()).or_insert(0) += 1;
+                    }
+                }
                 writeln!(req, "{}", line).unwrap();
                 req.flush().unwrap();
                 let ans = run_line(&line);
@@ -95,6 +116,13 @@ fn main() {
         "stackchild" => {
             let code = k_crash::stack_child(&args[2], args[3].parse().unwrap(), &args[4]);
             std::process::exit(code);
+        }
+        "count" => {
+            // number of cases of an exhaustive kind
+            match args[2].as_str() {
+                "valopx" => println!("{}", k_val::n_exhaustive()),
+                _ => println!("0"),
+            }
         }
         // harness shrink (one request line on stdin; smaller candidate requests on stdout)
         "shrink" => {
